@@ -6,5 +6,6 @@ PoolOne == { <<3, 5, 7, 9>>, <<9, 7, 5, 3>> }
 \* a small constraint and then the same one with one more argument that is repeated, complementary or (after a unit clause
 \* in between) decided at root level: the second request must not be answered from the cache entry of the first
 PoolDup == { <<3, 5>>, <<5, 3>>, <<3, 3, 5>>, <<3, 5, 3>>, <<3, 5, 7>>, <<7, 3, 5>>, <<3, 5, 6>>, <<2, 5>>, <<3, 5, 2>> }
+Yes == TRUE
 NoPool == {}
 =============================================================================
